@@ -57,7 +57,8 @@ def generate(template_path, repo, out_name):
         if kind == 'struct':
             t = tomllib.loads(arg)
             cname = t.get('cname', t['class'])
-            txt, names = L.struct_c(src(t['file']), t['class'], set(t.get('known', [])), cname=cname)
+            txt, names = L.struct_c(src(t['file']), t['class'], set(t.get('known', [])), cname=cname,
+                                    bases=[(src(b.get('file', t['file'])), b['class']) for b in t.get('bases', [])])
             need = t.get('need', [])
             for n in need:
                 if n not in names:
@@ -71,6 +72,11 @@ def generate(template_path, repo, out_name):
         if kind == 'extract':
             t = tomllib.loads(arg)
             return do_extract(t)
+        if kind == 'include':
+            inc = os.path.join(os.path.dirname(template_path), arg.strip())
+            if not os.path.exists(inc):
+                inc = os.path.join(os.path.dirname(os.path.dirname(os.path.abspath(__file__))), arg.strip())
+            return DIRECTIVE.sub(do, open(inc).read())
         raise X.ExtractionBroken('unknown directive @%s' % kind)
 
     def do_extract(t):
